@@ -203,6 +203,10 @@ func pluginDial(mux *plugin.MuxBroker, gb *plugin.GRPCBroker, r vp.Req) vp.Resp 
 		return vp.Resp{Err: "dial: " + err.Error()}
 	}
 	defer cc.Close()
+	if r.N2 > 0 {
+		// hold the dialled connection before its first use
+		time.Sleep(time.Duration(r.N2) * time.Millisecond)
+	}
 	out, err := vp.NewGRPCCaller(cc, gb).Call(vp.Req{Op: "who"})
 	if err != nil {
 		return vp.Resp{Err: "call: " + err.Error()}
